@@ -46,7 +46,6 @@ def main():
     # run the checks against the CURRENT /repo tree with the change applied (the worktree may predate later repairs of
     # /repo, whose absence would make a check fire for an unrelated reason); fall back to the worktree if the patch
     # does not apply any more
-    import shutil
     import tempfile
     target = tempfile.mkdtemp(prefix="hvseed_")
     for d in ("httpcore", "scripts"):
